@@ -6,6 +6,7 @@ import sys
 import vlib
 
 RT = "acquire-video-runtime/src/runtime"
+LOGGER = "acquire-core-libs/src/acquire-core-logger"
 
 
 # ----------------------------------------------------------------------------- generator
@@ -64,6 +65,72 @@ def gen_history(rng, cap, nops, nreaders, ctx=None):
     return ops
 
 
+def gen_raw_history(rng, cap, nops, nreaders):
+    """An unfiltered operation sequence for the implementation-only search (the harness skips what a single writer /
+    well-behaved reader would not call).  Aimed at several readers spread over two laps and a writer that keeps the
+    ring nearly full."""
+    ops = ["new %d" % cap]
+    lag = rng.randrange(nreaders)            # one reader that consumes little
+    for _ in range(nops):
+        x = rng.random()
+        if x < 0.40:
+            r = rng.random()
+            n = cap - 1 if r < 0.1 else rng.randint(max(1, cap // 2), cap - 1) if r < 0.3 else rng.randint(1, max(1, cap // 3))
+            ops.append("w %d" % n)
+            ops.append("c" if rng.random() < 0.9 else "a")
+        elif x < 0.43:
+            ops.append("acc %d" % rng.randint(0, 1))
+        else:
+            i = rng.randrange(nreaders)
+            if i == lag and rng.random() < 0.6:
+                continue
+            ops.append("r %d" % i)
+            k = rng.random()
+            ops.append("u %d %d" % (i, 1 << 40 if k < 0.6 else rng.randint(0, cap)))
+    return ops
+
+
+def search_raw(ctx, prop, impl, n):
+    """Implementation-only search with the property oracle on unfiltered histories (turns a broken tie into a concrete
+    failing history; also run, smaller, on every check)."""
+    hs = []
+    for _ in range(n):
+        cap = ctx.rng.randint(3, 12) if ctx.rng.random() < 0.7 else ctx.rng.randint(3, 40)
+        hs.append(gen_raw_history(ctx.rng, cap, ctx.rng.randint(30, 160), ctx.rng.randint(1, 5)))
+    shards = vlib.shard(hs, vlib.NPROC)
+
+    def runimpl(sh):
+        flat = [o for h in sh for o in h]
+        return run_lines(impl, flat)
+
+    for sh, (rc, out, err) in zip(shards, vlib.parallel(runimpl, shards)):
+        pos = 0
+        for h in sh:
+            o = out[pos:pos + len(h)]
+            pos += len(h)
+            if len(o) < len(h):
+                rc1, o, e1 = run_lines(impl, h, timeout=60)
+                if len(o) < len(h):
+                    if not ctx.has_violation("crash"):
+                        ctx.violation("implementation aborted (sanitizer report or crash) during a history: " + (e1 or "")[-300:],
+                                      {"history": h, "impl_output": o, "stderr": (e1 or "")[-3000:]}, key="crash")
+                    continue
+            ctx.count("search:raw-histories")
+            for (p, key, msg, k) in oracle(h, o, tolerant=True):
+                if p == prop and not ctx.has_violation(key):
+                    def fails(cand, key=key, h0=h[0]):
+                        ops = [h0] + cand
+                        rc2, out2, _ = run_lines(impl, ops, timeout=20)
+                        return len(out2) == len(ops) and any(kk == key for (_, kk, _, _) in oracle(ops, out2, tolerant=True))
+                    try:
+                        hh = [h[0]] + vlib.ddmin(h[1:k + 1], fails, max_tests=300)
+                    except Exception:
+                        hh = h[:k + 1]
+                    ctx.violation(msg + "  [found by the implementation-only search; history minimised]",
+                                  {"history": hh, "impl_output": run_lines(impl, hh)[1],
+                                   "how": "feed the history, one op per line, to .build/%s/h_channel (built by this check from /repo)" % prop}, key=key)
+
+
 def fix_wellformed(ops, run_model):
     """The generator does not know whether a write_map handed out a region (pend) or whether a reader is mapped;
     the model does: drop the ops it flags NOTWF and re-run until none is left."""
@@ -76,9 +143,11 @@ def fix_wellformed(ops, run_model):
 
 
 # ----------------------------------------------------------------------------- independent property oracle
-def oracle(ops, out):
+def oracle(ops, out, tolerant=False):
     """Direct statement of C01/C02 over the implementation's own outputs (never through the model).
-    Returns list of (property, key, message, index)."""
+    Returns list of (property, key, message, index).  tolerant: the history was not filtered through the model; ops the
+    harness skipped ('W skip', 'R skip') or that have no effect (commit with nothing mapped) are ignored, and the walk goes
+    on after a violation (re-synchronised) so that violations of several clauses are all seen."""
     v = []
     cap = 0
     L = 0
@@ -95,6 +164,8 @@ def oracle(ops, out):
             continue
         if "LOCKERR" in line or "LOCKHELD" in line:
             v.append(("C03", "lock-discipline", "lock not released / acquired twice at op %d: %s" % (k, line), k))
+        if len(res) > 1 and res[1] == "skip":
+            continue
         if w[0] == "w":
             n = int(w[1])
             if pend is not None:
@@ -105,20 +176,25 @@ def oracle(ops, out):
                     v.append(("C02", "region-outside", "write region [%d,%d) outside the buffer of %d bytes" % (off, off + n, cap), k))
                     return v
                 # bytes some reader has not consumed or has mapped
+                hit = False
                 for i, r in rd.items():
                     lo = r["start"] + r["consumed"]
                     for j in range(off, off + n):
-                        if shadow[j] >= lo:
+                        if shadow[j] >= lo and not hit:
                             v.append(("C02", "region-overlaps-unread",
                                       "write region [%d,%d) covers ring offset %d which holds log byte %d not yet consumed by reader %d (consumed up to %d)"
                                       % (off, off + n, j, shadow[j], i, lo), k))
-                            return v
+                            hit = True
+                if hit and not tolerant:
+                    return v
                 for j in range(off, off + n):
                     shadow[j] = -1
                 pend = (off, n)
             elif res[1] == "toobig" and n < cap:
                 v.append(("C03", "toobig-below-capacity", "request of %d < capacity %d rejected" % (n, cap), k))
         elif w[0] in ("c", "a") and pend is None:
+            if tolerant:
+                continue
             v.append(("-", "history-not-wf-for-impl", "commit/abort with no region mapped", k)); return v
         elif w[0] == "c":
             if pend and accepting:
@@ -134,7 +210,7 @@ def oracle(ops, out):
             accepting = w[1] != "0"
         elif w[0] == "r":
             i = int(w[1])
-            if (i in rd and rd[i]["held"]) or i > len(rd):
+            if ((i in rd and rd[i]["held"]) or i > len(rd)) and not tolerant:
                 v.append(("-", "history-not-wf-for-impl", "read_map on a mapped reader", k)); return v
             if res[1] == "-":
                 if i not in rd:
@@ -144,30 +220,38 @@ def oracle(ops, out):
                     v.append(("C01", "empty-not-drained",
                               "reader %d got an empty region at op %d although committed bytes %d..%d have not been delivered to it"
                               % (i, k, r["start"] + r["consumed"], L - 1), k))
-                    return v
+                    if not tolerant:
+                        return v
+                    r["consumed"] = L - r["start"]
             else:
                 off, ln = int(res[1]), int(res[2])
                 first = int(res[3].split("=")[1]); ok = res[4] == "ok=1"
                 if not ok:
                     v.append(("C02", "slice-not-committed", "slice [%d,%d) handed to reader %d is not a run of consecutive committed bytes (first=%d)"
                               % (off, off + ln, i, first), k))
-                    return v
+                    if not tolerant:
+                        return v
+                    continue
                 if i not in rd:
                     rd[i] = {"start": first, "consumed": 0, "ljoin": L, "held": None}
                     if first not in bounds or first > L:
                         v.append(("C01", "start-not-boundary", "reader %d starts at log byte %d which is not a write boundary <= %d" % (i, first, L), k))
-                        return v
+                        if not tolerant:
+                            return v
                 r = rd[i]
                 if first != r["start"] + r["consumed"]:
                     v.append(("C01", "lost-dup-reordered",
                               "reader %d was handed log bytes %d.. at op %d but the next byte it has not consumed is %d" % (i, first, k, r["start"] + r["consumed"]), k))
-                    return v
+                    if not tolerant:
+                        return v
+                    r["consumed"] = first - r["start"]
                 r["held"] = (off, ln)
         elif w[0] == "u":
             i = int(w[1]); kk = int(w[2])
             if "stable=0" in line:
                 v.append(("C02", "slice-modified", "the slice held by reader %d changed between map and unmap (op %d)" % (i, k), k))
-                return v
+                if not tolerant:
+                    return v
             if i in rd and rd[i]["held"]:
                 off, ln = rd[i]["held"]
                 rd[i]["consumed"] += min(kk, ln)
@@ -188,7 +272,7 @@ def build(ctx):
     orac = ctx.oracle_build()
     here = os.path.join(ctx.famdir, "harness")
     impl = ctx.cc([os.path.join(here, "h_channel.c"), RT + "/channel.c"], "h_channel",
-                  flags=["-I" + os.path.join(here, "stubplat"), "-I" + os.path.join(vlib.REPO, RT)])
+                  flags=["-I" + os.path.join(here, "stubplat"), "-I" + os.path.join(vlib.REPO, RT), "-I" + os.path.join(vlib.REPO, LOGGER)])
     return orac, impl
 
 
@@ -278,6 +362,11 @@ def run(ctx):
     results = vlib.parallel(runpair, fixed)
     for hs, ((rcm, mo, em), (rci, io, ei)) in zip(fixed, results):
         fold(ctx, prop, impl, hs, rcm, mo, em, rci, io, ei)
+    # search: the property oracle on unfiltered histories, implementation only; deeper when a tie is broken
+    concrete = any(v["found"] for v in ctx.violations)
+    search_raw(ctx, prop, impl, (60000 if thorough else 4000) if (not ctx.broken or concrete) else (200000 if thorough else 60000))
+    # the blocking paths: the same oracle over runs of the real channel.c under the scheduler (blocked writers re-evaluate)
+    sync_data_stage(ctx, prop, (20000 if thorough else 1500) if not ctx.broken else (60000 if thorough else 12000))
 
 
 def fold(ctx, prop, impl, histories, rcm, mo, em, rci, io, ei):
@@ -338,9 +427,9 @@ def fold(ctx, prop, impl, histories, rcm, mo, em, rci, io, ei):
 
 
 # ============================================================================= C03: blocking protocol under the scheduler
-def gen_sync_case(rng):
+def gen_sync_case(rng, data=False):
     cap = rng.randint(3, 10)
-    nreaders = rng.randint(1, 3)
+    nreaders = rng.randint(1, 3) if not data else rng.randint(2, 4)
     lines = ["CAP %d" % cap, "READERS %d" % nreaders]
     w = []
     for _ in range(rng.randint(2, 7)):
@@ -361,6 +450,58 @@ def gen_sync_case(rng):
             k.append("acc %d" % (0 if rng.random() < 0.6 else 1))
         lines.append("T " + ";".join(k))
     return lines
+
+
+def x_history(lines):
+    """The data-level view of a scheduler run: (ops, results) in the order the operations completed (the "X" lines)."""
+    ops, out = [], []
+    for l in lines:
+        if l.startswith("X "):
+            body = l.split(" ", 2)[2]
+            op, _, res = body.partition(" => ")
+            if op == "c-nomap":
+                continue
+            ops.append(op)
+            out.append(res)
+    return ops, out
+
+
+def build_sync(ctx):
+    here = os.path.join(ctx.famdir, "harness")
+    vp = os.path.join(vlib.VERIF, "harness", "vplatform")
+    return ctx.cc([os.path.join(here, "h_chansync.c"), os.path.join(vp, "vsched.c"), RT + "/channel.c"], "h_chansync",
+                  flags=["-I" + vp, "-I" + os.path.join(vlib.REPO, RT), "-I" + os.path.join(vlib.REPO, LOGGER)])
+
+
+def sync_data_stage(ctx, prop, n, impl=None, cases=None):
+    """C01/C02 over runs of the real channel.c under the deterministic scheduler (blocked writers that wake up and
+    re-evaluate, readers moving while the writer sleeps): implementation + property oracle only."""
+    impl = impl or build_sync(ctx)
+    if cases is None:
+        cases = []
+        for k in range(n):
+            c = gen_sync_case(ctx.rng, data=True)
+            c.append("WF 1")
+            c.append("SEED %d" % ctx.rng.randint(1, 1 << 30))
+            cases.append(c)
+
+    def one(case):
+        rc, o, e = vlib.sh([impl], inp="\n".join(case) + "\n", timeout=60)
+        return rc, o.split("\n"), e
+
+    for case, (rc, lines, err) in zip(cases, vlib.parallel(one, cases)):
+        ops, out = x_history(lines)
+        ctx.count("search:sync-runs")
+        if rc not in (0, 42, 5):
+            if ("AddressSanitizer" in (err or "") or "runtime error" in (err or "")) and not ctx.has_violation("crash"):
+                ctx.violation("sanitizer report in a scheduler run of channel.c: " + (err or "")[-400:], {"case": case, "stderr": (err or "")[-2000:]}, key="crash")
+            continue
+        for (p, key, msg, k) in oracle(ops, out, tolerant=True):
+            if p == prop and not ctx.has_violation(key):
+                sched = next((l.split()[1:] for l in lines if l.startswith("SCHEDULE")), [])
+                ctx.violation(msg + "  [run of channel.c under the scheduler: the writer blocks and re-evaluates]",
+                              {"case": case, "schedule": sched, "data_history": list(zip(ops[:k + 1], out[:k + 1]))[-30:],
+                               "how": "feed `case` with the line 'SCHED <schedule>' to .build/%s/h_chansync" % ctx.prop}, key=key)
 
 
 def canon_trace(lines):
@@ -405,10 +546,7 @@ def sync_oracle(case, lines):
 def run_c03(ctx):
     ctx.coq_prove(["Properties_C03"])
     orac = ctx.oracle_build()
-    here = os.path.join(ctx.famdir, "harness")
-    vp = os.path.join(vlib.VERIF, "harness", "vplatform")
-    impl = ctx.cc([os.path.join(here, "h_chansync.c"), os.path.join(vp, "vsched.c"), RT + "/channel.c"], "h_chansync",
-                  flags=["-I" + vp, "-I" + os.path.join(vlib.REPO, RT)])
+    impl = build_sync(ctx)
     thorough = ctx.tier == "thorough"
     ctx.rule = ("threads W (map/commit/abort), 1..3 readers (map/unmap, partial), K (accept 0/1) running scripts on the real channel.c under "
                 "the deterministic scheduler; one random schedule per case (seed), capacities 3..10; lock-step comparison of every step "
@@ -469,6 +607,31 @@ def run_c03(ctx):
             ctx.traces_validated += 1
         if len(ctx.samples) < 2 and parked:
             ctx.sample({"case": case, "schedule": " ".join(sched)})
+    # search: a broken lock-step with no deadlock seen yet -- re-run the disagreeing scripts under many more schedules and
+    # a fresh, larger batch aimed at several readers on different laps, implementation + oracle only
+    if ctx.broken and not any(v["found"] for v in ctx.violations):
+        bad = [c for c, (rc, lines, err, mlines, sched) in zip(cases, results) if canon_trace(lines) != canon_trace(mlines)][:40]
+        extra = []
+        for c in bad:
+            base = [l for l in c if not l.startswith(("SEED", "SPURIOUS"))]
+            for _ in range(150):
+                extra.append(base + ["SEED %d" % ctx.rng.randint(1, 1 << 30)])
+        for _ in range(20000 if thorough else 6000):
+            c = gen_sync_case(ctx.rng, data=True)
+            extra.append(c + ["SEED %d" % ctx.rng.randint(1, 1 << 30)])
+
+        def oneimpl(case):
+            rc, o, e = vlib.sh([impl], inp="\n".join(case) + "\n", timeout=60)
+            return rc, o.split("\n")
+
+        for case, (rc, lines) in zip(extra, vlib.parallel(oneimpl, extra)):
+            ctx.count("search:extra-schedules")
+            for key, msg in sync_oracle(case, lines):
+                if not ctx.has_violation(key):
+                    sched = next((l.split()[1:] for l in lines if l.startswith("SCHEDULE")), [])
+                    ctx.violation(msg + "  [found by the implementation-only schedule search]",
+                                  {"case": case, "schedule": sched, "trace_tail": lines[-25:],
+                                   "how": "feed `case` with the line 'SCHED <schedule>' to .build/C03/h_chansync"}, key=key)
 
 
 _run_ring = run
